@@ -137,6 +137,9 @@ var c18Configs = []c18Config{
 		return &gtfs.ParseRealtimeOptions{Extension: nyctalerts.Extension(nyctalerts.ExtensionOpts{ElevatorAlertsDeduplicationPolicy: nyctalerts.NoDeduplication})}
 	}},
 	{"nil-extension-default-zone", func() *gtfs.ParseRealtimeOptions { return &gtfs.ParseRealtimeOptions{} }},
+	{"raw-nyctalerts-in-station", func() *gtfs.ParseRealtimeOptions {
+		return &gtfs.ParseRealtimeOptions{Extension: nyctalerts.Extension(nyctalerts.ExtensionOpts{ElevatorAlertsDeduplicationPolicy: nyctalerts.DeduplicateInStation, ElevatorAlertsInformUsingStationIDs: true, SkipTimetabledNoServiceAlerts: true, AddNyctMetadata: true})}
+	}},
 }
 
 type c18Call struct {
@@ -196,6 +199,8 @@ var c18Inputs struct {
 	zipUnknown []byte // the first agency's timezone is a name the tz database does not know (never seen before in this process)
 	zipBOM     []byte // every member starts with a UTF-8 byte order mark
 	zipBOM16   []byte // agency.txt is UTF-16LE with a byte order mark
+	zipRejects []byte // one rejected row of every kind, an optional file and an optional column missing
+	zipNoCols  []byte // every table but agency.txt lacks one of its required columns
 }
 
 // c18Large: a well-formed archive of 1030 rows per table in which one trip id is listed twice in
@@ -261,6 +266,45 @@ func c18Init() {
 	mu.t("agency.txt").set(0, "agency_timezone", fmt.Sprintf("Nowhere/Zone%d", c18Salt))
 	c18Inputs.zipUnknown = renderFeed(mu, presentation{})
 	c18Inputs.zipBOM = renderFeed(m, presentation{BOM: true})
+	{
+		n3 := baseCounts
+		n3.trips, n3.stopTimes = 3, 6
+		mr := genStaticFeedN(&Ctx{}, false, n3, nil, nil)
+		mr.t("calendar.txt").set(0, "start_date", date)
+		for i, rj := range rejections {
+			if rj.times <= 1 {
+				spliceRejected(mr, rj, i%2, fmt.Sprintf("r%d", i))
+			}
+		}
+		// one-sided times, a time with blanks and one with too many colons, a transfer from a stop to itself
+		st := mr.t("stop_times.txt")
+		st.set(len(st.Rows)-1, "arrival_time", "")
+		st.set(len(st.Rows)-2, "departure_time", "")
+		st.set(len(st.Rows)-3, "arrival_time", " 8:05:00 ")
+		st.set(len(st.Rows)-4, "arrival_time", "8:05:00:00")
+		if tf := mr.t("transfers.txt"); len(tf.Rows) > 0 {
+			from, _ := tf.get(0, "from_stop_id")
+			tf.Rows = append(tf.Rows, append([]string{}, tf.Rows[0]...))
+			tf.set(len(tf.Rows)-1, "to_stop_id", from)
+		}
+		mr.t("stops.txt").dropCol("stop_desc")
+		var keep []*table
+		for _, t := range mr.Tables {
+			if t.File != "frequencies.txt" {
+				keep = append(keep, t)
+			}
+		}
+		mr.Tables = keep
+		c18Inputs.zipRejects = renderFeed(mr, presentation{})
+		mc := m.clone()
+		for file, col := range map[string]string{"routes.txt": "route_type", "stops.txt": "stop_id", "transfers.txt": "to_stop_id", "calendar.txt": "monday", "calendar_dates.txt": "date",
+			"shapes.txt": "shape_pt_lat", "trips.txt": "service_id", "frequencies.txt": "headway_secs", "stop_times.txt": "stop_sequence"} {
+			if t := mc.t(file); t != nil {
+				t.dropCol(col)
+			}
+		}
+		c18Inputs.zipNoCols = renderFeed(mc, presentation{})
+	}
 	var members []rawMember
 	for _, t := range m.Tables {
 		content := renderCSV(t, presentation{})
@@ -396,7 +440,7 @@ func init() {
 	register(&Check{
 		ID:    "C18",
 		Level: "model_checking",
-		Rule: "threads = parse calls (each followed by hashing and walking its own result) sharing input buffers and one options value; scenarios: realtime||realtime on the same buffer (a valid one; a rejected one: HTML + half a feed), on two copies of a feed of NYCT oddities (assigned trips without train id, updates without stop id) and on two different feeds (elevator feeds that share groups for nyctalerts), static||static on the same archive (known and never-seen unknown agency zone; members with UTF-8 / UTF-16 byte order marks; an archive of 1030 trips with a duplicate trip id, alone and twice; two archives rejected for an empty member of different names), static||realtime, journal+CSV export||journal+CSV export, for 7 configurations (nil Extension with and without Timezone, no-op, nycttrips and nyctalerts behind a yielding proxy, nycttrips and nyctalerts unwrapped with the default zone); thorough adds 3-thread scenarios; every interleaving at the scheduling points (extension method calls + per-entity / per-file hooks) with <= 2 preemptions (thorough <= 4; <= 2 for three threads), each executed under -race with a hand-off the detector cannot see; " +
+		Rule: "threads = parse calls (each followed by hashing and walking its own result) sharing input buffers and one options value; scenarios: realtime||realtime on the same buffer (a valid one; a rejected one: HTML + half a feed), on two copies of a feed of NYCT oddities (assigned trips without train id, updates without stop id) and on two different feeds (elevator feeds that share groups for nyctalerts), static||static on the same archive (known and never-seen unknown agency zone; members with UTF-8 / UTF-16 byte order marks; an archive of 1030 trips with a duplicate trip id, alone and twice; two archives rejected for an empty member of different names; an archive with one rejected row of every kind, a missing optional file and column), realtime||realtime on a kitchen-sink feed (every optional field, alerts with route fall-backs, label-only and bare vehicles), static||realtime, journal+CSV export||journal+CSV export, for 8 configurations (nil Extension with and without Timezone, no-op, nycttrips and nyctalerts behind a yielding proxy, nycttrips and two nyctalerts policies unwrapped with the default zone); thorough adds 3-thread scenarios; every interleaving at the scheduling points (extension method calls + per-entity / per-file hooks) with <= 2 preemptions (thorough <= 4; <= 2 for three threads), each executed under -race with a hand-off the detector cannot see; " +
 			"non-trivial = distinct schedules in which both threads ran between points; oracle = zero race reports (runtime.RaceErrors per schedule) and every call's dump equal to its solo dump",
 		Assumptions: []string{"the Go race detector is trusted (no false positives; bounded shadow history)", "synchronisation inside the standard library / protobuf (sync.Pool, sync.Once) creates real happens-before edges that can hide a conflict in one schedule; the explored preemptions move the calls relative to those edges", "exhaustive over schedules at the listed points within the preemption bound, and over memory for the executed paths; not over inputs"},
 		Scenarios: func(tier string) []*Scenario {
@@ -424,6 +468,10 @@ func init() {
 						// assigned trips without train id, updates without stop ids: each call on its own copy
 						return []c18Call{rtCall("ParseRealtime(oddities)", c18Inputs.feeds[6]), rtCall("ParseRealtime(copy of oddities)", append([]byte(nil), c18Inputs.feeds[6]...))}
 					})},
+					&Scenario{Name: "rt-kitchen-sink/" + cfg.name, Bound: k, Run: c18Harness(cfg, func() []c18Call {
+						// every optional field, alerts with route fall-backs, label-only and bare vehicles: on one shared buffer
+						return []c18Call{rtCall("ParseRealtime(kitchen sink)", c18Inputs.feeds[7]), rtCall("ParseRealtime(kitchen sink)", c18Inputs.feeds[7])}
+					})},
 					&Scenario{Name: "rt-two-feeds/" + cfg.name, Bound: k, Run: c18Harness(cfg, func() []c18Call {
 						return []c18Call{rtCall(fmt.Sprintf("ParseRealtime(feed%d)", a), c18Inputs.feeds[a]), rtCall(fmt.Sprintf("ParseRealtime(feed%d)", b), c18Inputs.feeds[b])}
 					})},
@@ -444,6 +492,13 @@ func init() {
 				})},
 				&Scenario{Name: "static-with-byte-order-marks", Bound: k, Run: c18Harness(c18Configs[1], func() []c18Call {
 					return []c18Call{staticCall("ParseStatic(z, UTF-8 BOM)", c18Inputs.zipBOM), staticCall("ParseStatic(z, UTF-16 BOM)", c18Inputs.zipBOM16)}
+				})},
+				&Scenario{Name: "static-with-rejected-rows", Bound: k, Run: c18Harness(c18Configs[1], func() []c18Call {
+					// every row-level rejection path (and the warnings they produce), a missing optional file and column
+					return []c18Call{staticCall("ParseStatic(rejected rows)", c18Inputs.zipRejects), staticCall("ParseStatic(rejected rows)", c18Inputs.zipRejects)}
+				})},
+				&Scenario{Name: "static-missing-required-columns", Bound: k, Run: c18Harness(c18Configs[1], func() []c18Call {
+					return []c18Call{staticCall("ParseStatic(required columns missing)", c18Inputs.zipNoCols), staticCall("ParseStatic(rejected rows)", c18Inputs.zipRejects)}
 				})},
 				&Scenario{Name: "static-large-archive", Bound: 1, Run: c18Harness(c18Configs[1], func() []c18Call {
 					return []c18Call{staticCall("ParseStatic(1030 trips, one id twice)", c18Large())}
